@@ -62,7 +62,7 @@ def run(ctx):
                                  "separators", "kv-count-complete", "kind-new", "new-only-if-none", "G9|", "G15|", "anchor|"))
     _run_as(c13, sub2, ctx)
     sub3 = _Only(ctx, "C06-R3", ("one-span|", "same-end|", "same-shift|", "shift-span", "shift-paren", "G10|", "G14|", "inner-handles", "target-flag",
-                                 "post-target-span", "anchor-after-target", "paren-anchor-only-without-target", "literal-inner"))
+                                 "post-target-span", "post-target-first-only", "anchor-after-target", "paren-anchor-only-without-target", "literal-inner"))
     _run_as(c13, sub3, ctx)
     # grammar side of the kv round trip
     P = "C06-R2"
